@@ -65,7 +65,7 @@ def _rec(arr, idx, kind):
                 fr = sys._getframe(2)
                 fn, ln = fr.f_code.co_filename, fr.f_lineno
                 line = linecache.getline(fn, ln)
-                if v < 0 and worker._LITERAL_NEG.search(line):     # literal negative index such as path[-1]
+                if v < 0 and worker._literal_neg(line, v):     # literal negative index such as path[-1]
                     continue
                 OOB.append(f"{name}[{v}] ({kind}, axis {ax}, size {size}) at {os.path.basename(fn)}:{ln}: {line.strip()[:80]}")
 
